@@ -341,6 +341,11 @@ def gen_c11(tier, rng):
     for _ in range(20000 if big else 2000):
         argv = [rng.choice(al) for _ in range(rng.below(10))]
         out.append(pcase("C11", d, rng.choice([{}, {"NV_A": rng.choice(TRUTHY + FALSY + ["x"])}]), argv))
+    # toggles whose own names begin with "no-": their long spelling is an occurrence, `--no-no-…` the reversal
+    d3 = D([O("t", "no-cache", "n", flag=True, dflt=0), O("t", "no-wait", "w"), O("t", "other", "c", flag=True)], allowed=0)
+    al3 = ["--no-cache", "-n", "-nn", "--no-no-cache", "--no-wait", "-w", "-nw", "--no-no-wait", "--other", "--no-other"]
+    for argv in og.all_argv(al3, 3 if big else 2):
+        out.append(pcase("C11", d3, {}, argv))
     return with_histories(with_moved(out, rng, 6000 if tier == "thorough" else 1500), rng, 2400 if tier == "thorough" else 600)
 
 
